@@ -1,7 +1,8 @@
 #!/bin/bash
 # usage: regress_neutral.sh [pattern] [IDs]
 # Runs every kept behaviour-preserving change (/verif/neutral/*/patch.diff) against the quick tier of every check
-# (or the comma-separated IDs given) in a scratch copy; every line must say SURVIVED (= the check stayed silent).
+# (or the comma-separated IDs given) in a scratch copy; every line must say SURVIVED (= the check stayed silent),
+# except for the IDs listed in a change's expected_alarms.txt (there the property named is really violated).
 PAT="${1:-}"
 IDS="${2:-C01,C02,C03,C04,C05,C06,C07,C08,C09,C10,C11,C12,C13,C14,C15,C16,C17,C18,C19}"
 ARGS=()
